@@ -223,7 +223,7 @@ func (e *emitter) expr(x ast.Expr) string {
 				e.g.fail(t, "opaque receiver used as a value")
 			}
 			if e.g.nilable[v] && !e.rawOpt {
-				return "((" + e.name(v) + ").getD [])"
+				return "((" + e.name(v) + ").getD " + e.g.nilDefault(v.Type()) + ")"
 			}
 			return e.name(v)
 		}
@@ -246,6 +246,12 @@ func (e *emitter) expr(x ast.Expr) string {
 				return "(~~~" + e.expr(t.X) + ")"
 			}
 		case token.AND:
+			// &x of a local structure in a return statement: the structure itself (pointers to structures are values)
+			if id, ok := t.X.(*ast.Ident); ok && e.inReturn {
+				if _, isStruct := e.typeOf(id).Underlying().(*types.Struct); isStruct {
+					return e.expr(id)
+				}
+			}
 			if _, ok := t.X.(*ast.CompositeLit); ok {
 				return e.expr(t.X)
 			}
@@ -344,7 +350,7 @@ func (e *emitter) expr(x ast.Expr) string {
 			base := e.expr(t.X)
 			e.rawOpt = raw
 			if e.g.nilable[sel.Obj()] && !raw {
-				return "((" + base + "." + leanField(t.Sel.Name) + ").getD [])"
+				return "((" + base + "." + leanField(t.Sel.Name) + ").getD " + e.g.nilDefault(sel.Obj().Type()) + ")"
 			}
 			return base + "." + leanField(t.Sel.Name)
 		}
@@ -399,6 +405,9 @@ func (e *emitter) compositeLit(t *ast.CompositeLit) string {
 		}
 		return "([" + strings.Join(els, ", ") + "] : " + e.lt(t, typ) + ")"
 	case *types.Array:
+		if len(t.Elts) == 0 {
+			return e.g.zero(t, typ)
+		}
 		if len(t.Elts) == 0 {
 			return e.g.zero(t, typ)
 		}
@@ -459,7 +468,11 @@ func (e *emitter) funcLit(t *ast.FuncLit) string {
 	var bs, rts []string
 	for i := 0; i < sig.Params().Len(); i++ {
 		p := sig.Params().At(i)
-		bs = append(bs, fmt.Sprintf("(%s : %s)", e.name(p), e.lt(t, p.Type())))
+		pn := e.name(p)
+		if p.Name() == "" {
+			pn = e.fresh("a")
+		}
+		bs = append(bs, fmt.Sprintf("(%s : %s)", pn, e.lt(t, p.Type())))
 	}
 	var named []*types.Var
 	for i := 0; i < sig.Results().Len(); i++ {
@@ -488,6 +501,56 @@ func (e *emitter) funcLit(t *ast.FuncLit) string {
 		bs = []string{"(_ : Unit)"}
 	}
 	return fmt.Sprintf("(fun %s => (do\n%s%s: Go.M %s))", strings.Join(bs, " "), body, strings.Repeat("  ", e.ind+2), rt)
+}
+
+// funcLitStateful: a function literal passed for a stateful callback parameter: the captured variables it assigns are
+// its state: `fun state args => do ...; pure (state', results)`
+func (e *emitter) funcLitStateful(t *ast.FuncLit, captured []*types.Var) string {
+	sig := e.typeOf(t).(*types.Signature)
+	var pat, sty []string
+	for _, v := range captured {
+		pat = append(pat, e.name(v))
+		sty = append(sty, e.g.typeOfVar(t, v))
+	}
+	bs := []string{fmt.Sprintf("(cb_st : %s)", tupleType(sty))}
+	for i := 0; i < sig.Params().Len(); i++ {
+		p := sig.Params().At(i)
+		pn := e.name(p)
+		if p.Name() == "" {
+			pn = e.fresh("a")
+		}
+		bs = append(bs, fmt.Sprintf("(%s : %s)", pn, e.lt(t, p.Type())))
+	}
+	rts := []string{tupleType(sty)}
+	for i := 0; i < sig.Results().Len(); i++ {
+		r := sig.Results().At(i)
+		rts = append(rts, e.lt(t, r.Type()))
+		if r.Name() != "" {
+			e.g.fail(t, "function literal with named results")
+		}
+	}
+	rt := strings.Join(rts, " × ")
+	c := ctx{mtype: "Go.M (" + rt + ")"}
+	for i := 0; i < sig.Results().Len(); i++ {
+		c.resT = append(c.resT, sig.Results().At(i).Type())
+	}
+	c.retVals = func(vals []string) string {
+		var cur []string
+		for _, v := range captured {
+			cur = append(cur, e.name(v))
+		}
+		return "pure " + tuple(append([]string{tuple(cur)}, vals...))
+	}
+	c.retRaw = func(v string) string { return "pure " + v }
+	body := e.capture(func() {
+		e.ind += 2
+		if len(pat) > 0 {
+			e.line("let %s := cb_st", tuple(pat))
+		}
+		e.stmts(t.Body.List, c, nil)
+		e.ind -= 2
+	})
+	return fmt.Sprintf("(fun %s => (do\n%s%s: Go.M (%s)))", strings.Join(bs, " "), body, strings.Repeat("  ", e.ind+2), rt)
 }
 
 // ---------------------------------------------------------------- conversions
@@ -724,6 +787,22 @@ func (e *emitter) call(call *ast.CallExpr, want int) []string {
 			return e.bindResults(fmt.Sprintf("%s %s", e.name(v), strings.Join(args, " ")), sig.Results().Len(), want, true)
 		}
 	}
+	// call of a function-valued field (params.Ask(...)): a pure function value
+	if se, ok := call.Fun.(*ast.SelectorExpr); ok {
+		if sel := e.info.Selections[se]; sel != nil && sel.Kind() == types.FieldVal {
+			if sig, ok := sel.Obj().Type().Underlying().(*types.Signature); ok {
+				f := e.expr(se)
+				var args []string
+				for _, a := range call.Args {
+					args = append(args, paren(e.expr(a)))
+				}
+				if len(args) == 0 {
+					args = []string{"()"}
+				}
+				return e.bindResults(fmt.Sprintf("%s %s", paren(f), strings.Join(args, " ")), sig.Results().Len(), want, true)
+			}
+		}
+	}
 	return e.callLib(call, lib, want)
 }
 
@@ -821,6 +900,8 @@ func (e *emitter) callTranslated(call *ast.CallExpr, callee *fnInfo, want int) [
 	}
 	var wbs []ast.Expr
 	var consumed []string
+	var cbCaptured []*types.Var
+	hasCb := false
 	nfixed := len(callee.params)
 	variadic := sig.Variadic()
 	for i, p := range callee.params {
@@ -840,6 +921,21 @@ func (e *emitter) callTranslated(call *ast.CallExpr, callee *fnInfo, want int) [
 			continue
 		}
 		a := argExprs[i]
+		if callee.cbState[p] != nil {
+			fl, ok := unparen(a).(*ast.FuncLit)
+			if !ok {
+				e.g.fail(a, "argument of a stateful callback parameter must be a function literal")
+			}
+			cbCaptured = e.assigned(fl)
+			args = append(args, e.funcLitStateful(fl, cbCaptured))
+			var cur []string
+			for _, v := range cbCaptured {
+				cur = append(cur, e.name(v))
+			}
+			args = append(args, tuple(cur))
+			hasCb = true
+			continue
+		}
 		// a nil argument takes the parameter's zero value
 		args = append(args, e.argExpr(a, p.Type()))
 		if callee.mut[i] {
@@ -848,6 +944,17 @@ func (e *emitter) callTranslated(call *ast.CallExpr, callee *fnInfo, want int) [
 		if callee.consume[i] {
 			id, ok := unparen(a).(*ast.Ident)
 			if !ok {
+				// a field path (params.Initial): it cannot be shadowed, so it must not be mentioned again after the call
+				if se, isSel := unparen(a).(*ast.SelectorExpr); isSel {
+					txt := types.ExprString(se)
+					ast.Inspect(e.fi.decl.Body, func(n ast.Node) bool {
+						if s2, ok := n.(*ast.SelectorExpr); ok && s2.Pos() > call.End() && types.ExprString(s2) == txt {
+							e.g.fail(s2, "%s is read after it was passed to a consuming parameter", txt)
+						}
+						return true
+					})
+					continue
+				}
 				e.g.fail(a, "argument of a consuming parameter must be a variable")
 			}
 			if v, ok := e.info.Uses[id].(*types.Var); ok {
@@ -858,9 +965,22 @@ func (e *emitter) callTranslated(call *ast.CallExpr, callee *fnInfo, want int) [
 		}
 	}
 	have := sig.Results().Len() + len(wbs)
+	if hasCb {
+		have++
+	}
 	names := e.bindResults(fmt.Sprintf("%s %s", callee.lean, strings.Join(args, " ")), have, want, true)
 	for i, a := range wbs {
 		e.writeBack(a, names[sig.Results().Len()+i])
+	}
+	if hasCb {
+		// the callback's final state: the captured variables it assigns
+		var pat []string
+		for _, v := range cbCaptured {
+			pat = append(pat, e.name(v))
+		}
+		if len(pat) > 0 {
+			e.line("let %s := %s", tuple(pat), names[have-1])
+		}
 	}
 	for _, c := range consumed {
 		e.line("let %s := ()", c)
@@ -967,6 +1087,14 @@ func (e *emitter) callLib(call *ast.CallExpr, lib string, want int) []string {
 		e.line("let (%s, %s) ← Go.putUvarint %s %s", nb, n, arg(0), arg(1))
 		e.writeBack(call.Args[0], nb)
 		return []string{n}
+	case "(time.Duration).Milliseconds":
+		return []string{"(Int.tdiv " + e.expr(call.Fun.(*ast.SelectorExpr).X) + " 1000000)"}
+	case "log.Println", "log.Printf", "log.Print":
+		// logging has no effect the translation can see; the arguments are still evaluated
+		for i := range call.Args {
+			arg(i)
+		}
+		return nil
 	case "errors.Errorf", "errors.New", "fmt.Errorf":
 		msg := "error"
 		if tv := e.info.Types[call.Args[0]]; tv.Value != nil && tv.Value.Kind() == constant.String {
